@@ -1342,8 +1342,9 @@ class Canon:
         b = lift_ifexp(b)
         b = lift_walrus(b)
         look = self._lookup(module, cls, fn, set(inline), set(keep), accessors)
-        from .genloop import inline_generator_loops
+        from .genloop import inline_generator_loops, inline_guard_helpers
         b = inline_generator_loops(b, look)       # loops over unknown generator helpers: the helper's loop with the body at its yield
+        b = inline_guard_helpers(b, look)         # if not helper(..): raise ..  with a boolean helper that returns from inside a loop
         b = lift_walrus(lift_ifexp(b))
         inl = Inliner(look)
         b = inl.rec(b, inl.depth, (fn.name,))
